@@ -24,7 +24,7 @@ import numpy as np
 
 from harness import common as C
 
-IMPORTS = "From Coq Require Import NArith.\nFrom FDAV Require Import Base.Num Base.Vec Base.Cmp Model.NoiseSparse Tie.C20."
+IMPORTS = "From Coq Require Import NArith Uint63.\nFrom FDAV Require Import Base.Num Base.Vec Base.Cmp Model.NoiseSparse Tie.C20."
 
 RULE = ("simulators: KarhunenLoeve univariate 1-D (fourier/legendre/wiener/bsplines), multivariate 1-D, univariate 2-D and "
         "all-2-D multivariate (unsupported: natural failure), mixed 2-D+1-D multivariate, Brownian, Datasets, seeded and unseeded; "
@@ -135,11 +135,14 @@ def gen_specs(rng, quick):
 
 def gen_params(rng, quick):
     """(noise variance, percentage, epsilon) triples."""
-    out = [(0.0, 0.0, 0.0), (0.25, 0.05, 0.05), (1.0, 1.0, 0.0), (0.0, 0.9, 0.05), (2.0, 0.5, 1.0)]
+    out = [(0.0, 0.0, 0.0), (0.25, 0.05, 0.05), (1.0, 1.0, 0.0), (2.0, 0.5, 1.0)]
+    if not quick:
+        out.append((0.0, 0.9, 0.05))
     for _ in range(1 if quick else 6):
         out.append((float(np.round(rng.uniform(0, 3), 3)), float(np.round(rng.uniform(0, 1), 2)),
                     float(np.round(rng.uniform(0, 1), 2))))
-        out.append((float(rng.choice([0.0625, 0.5, 4.0])), float(rng.choice([0.0, 0.1, 0.2])), float(rng.choice([0.0, 0.1]))))
+        if not quick:
+            out.append((float(rng.choice([0.0625, 0.5, 4.0])), float(rng.choice([0.0, 0.1, 0.2])), float(rng.choice([0.0, 0.1]))))
     return out
 
 
@@ -247,8 +250,26 @@ def same_grids(a, b):
 # ---------------------------------------------------------------------------
 # Coq literals
 # ---------------------------------------------------------------------------
+def ql(x):
+    """Exact literal of a double as +/- mantissa * 2^exponent with a PRIMITIVE integer mantissa (Tie `qof`):
+    elaborating `Qmake <16 digits> <16 digits>` costs ~2 ms per number, this costs nothing."""
+    import math
+    xf = float(x)
+    if xf != xf or xf in (float("inf"), float("-inf")):
+        raise ValueError(f"non-finite value {x!r} cannot be given to the model")
+    m, e = math.frexp(abs(xf))
+    return f"(qof {'true' if xf < 0 else 'false'} {int(m * 2 ** 53)}%uint63 ({e - 53}))"
+
+
+def qlist(xs):
+    return "[" + "; ".join(ql(x) for x in xs) + "]"
+
+
+def qmat(rows):
+    return "[" + "; ".join(qlist(r) for r in rows) + "]"
+
 def cells_lit(row):
-    return "[" + "; ".join("None" if np.isnan(v) else f"Some {C.qlit(v)}" for v in row) + "]"
+    return "[" + "; ".join("None" if np.isnan(v) else f"Some {ql(v)}" for v in row) + "]"
 
 
 def cellsm_lit(rows):
@@ -365,7 +386,7 @@ def noise_terms(run, todo, spec, params, what, src, noisy, log, s, dd):
                 dd.violation("noise-scale", f"{what}: noise drawn with standard deviation {scale}, expected sqrt({v}) = {s}", info)
                 ok = False
         if v == 0.0:
-            term = f"noise_exact {C.qlit(s_model if scale == 1.0 else 1.0)} {C.qmat(Z)} {C.qmat(X)} {C.qmat(Y)}"
+            term = f"noise_exact {ql(s_model if scale == 1.0 else 1.0)} {qmat(Z)} {qmat(X)} {qmat(Y)}"
             exact = np.array_equal(X, Y)
             if not exact:
                 dd.violation("noise-zero", f"{what}: variance 0 but the noisy curves differ from the source "
@@ -373,7 +394,7 @@ def noise_terms(run, todo, spec, params, what, src, noisy, log, s, dd):
                 ok = False
         else:
             tol = 1e-12 * max(1.0, float(np.max(np.abs(X))), s_model * float(np.max(np.abs(Z))))
-            term = f"noise_close {C.qlit(tol)} {C.qlit(s_model)} {C.qmat(Z)} {C.qmat(X)} {C.qmat(Y)}"
+            term = f"noise_close {ql(tol)} {ql(s_model)} {qmat(Z)} {qmat(X)} {qmat(Y)}"
             if np.max(np.abs((Y - X) - s_model * Z)) > 10 * tol:
                 dd.violation("noise-diff", f"{what}: noisy - source is not sqrt(variance) * draw "
                              f"(max deviation {np.max(np.abs((Y - X) - s_model * Z)):.3g}, variance {v})",
@@ -428,20 +449,21 @@ def sparse_terms(run, todo, spec, params, what, src, sparse, log, dd):
             drawn = [False] * len(S)
         else:
             masks, pairs, drawn = parsed[ci]
-        t = run.add(f"sparse_eq {masks_lit(masks)} {pairs_lit(pairs)} {C.qmat(X)} {cellsm_lit(S)}")
-        todo.append((t, "sparse-model", f"{what}: sparse cells differ from the model sparsify (min_two mask fallback) x "
-                     f"(component {ci}, percentage={params[1]}, epsilon={params[2]})",
+        parts = [("sparse-model", f"{what}: sparse cells differ from the model sparsify (min_two mask fallback) x "
+                  f"(component {ci}, percentage={params[1]}, epsilon={params[2]})",
+                  f"sparse_eq {masks_lit(masks)} {pairs_lit(pairs)} {qmat(X)} {cellsm_lit(S)}")]
+        if any(drawn):
+            parts.append(("sparse-oracle", f"{what}: the min-two fallback returned positions that are not two DISTINCT indices of the curve "
+                          f"(drawn with replacement — defect model any_pair, F13b): {[pp for pp, d in zip(pairs, drawn) if d]}",
+                          f"pairs_distinct {qmat(X)} {pairs_lit(pairs)}"))
+        parts.append(("sparse-min2-model", f"{what}: a curve keeps fewer than two samples (component {ci})",
+                      f"kept_ge2 {cellsm_lit(S)}"))
+        # one merged term per component; the parts are evaluated separately only when it fails
+        t = run.add(" && ".join(f"({p[2]})" for p in parts))
+        todo.append((t, parts, None,
                      {**info, "component": ci, "X": C.hexf(X), "masks": [m.astype(int).tolist() for m in masks],
                       "fallback": [list(pp) for pp in pairs], "fallback_drawn": drawn,
                       "sparse": [[float(x).hex() for x in r] for r in S]}))
-        if any(drawn):
-            t = run.add(f"pairs_distinct {C.qmat(X)} {pairs_lit(pairs)}")
-            todo.append((t, "sparse-oracle", f"{what}: the min-two fallback returned positions that are not two DISTINCT indices of the curve "
-                         f"(drawn with replacement — defect model any_pair, F13b): {[pp for pp, d in zip(pairs, drawn) if d]}",
-                         {**info, "component": ci, "fallback": [list(pp) for pp in pairs], "fallback_drawn": drawn}))
-        t = run.add(f"kept_ge2 {cellsm_lit(S)}")
-        todo.append((t, "sparse-min2-model", f"{what}: a curve keeps fewer than two samples (component {ci})",
-                     {**info, "component": ci, "sparse": [[float(x).hex() for x in r] for r in S]}))
     return ok
 
 
@@ -454,7 +476,7 @@ def untouched(sim, d0, snap0):
 
 
 def operations_level(rep, rng, specs, params, quick, dd):
-    run = C.CoqRun("C20", IMPORTS, shard=40)
+    run = C.CoqRun("C20", IMPORTS, shard=60)
     todo = []
     sq_seen = set()
     for spec in specs:
@@ -468,7 +490,7 @@ def operations_level(rep, rng, specs, params, quick, dd):
             s = float(np.sqrt(v))
             if v not in sq_seen:
                 sq_seen.add(v)
-                t = run.add(f"sqrt_ok {C.qlit(1e-15)} {C.qlit(s)} {C.qlit(v)}")
+                t = run.add(f"sqrt_ok {ql(1e-15)} {ql(s)} {ql(v)}")
                 todo.append((t, "sqrt-oracle", f"np.sqrt({v}) = {s} is not a square root within 1e-15", {"v": v, "s": s}))
             for op in ("add_noise", "sparsify", "add_noise_and_sparsify"):
                 info = {"spec": spec, "op": op, "params": list(prm)}
@@ -519,10 +541,22 @@ def operations_level(rep, rng, specs, params, quick, dd):
                     # the combined operation sparsifies the NOISY curves
                     sparse_terms(run, todo, spec, prm, op + "[sparsify of noisy]", sim.noisy_data, sim.sparse_data, slog, dd)
     res = run.run()
+    second = C.CoqRun("C20", IMPORTS, shard=30)
+    stage2 = []
     for t, cls, what, info in todo:
-        if not res[t]:
-            rep.disagreements_checked += 1
+        if res[t]:
+            continue
+        rep.disagreements_checked += 1
+        if isinstance(cls, list):          # merged term: find out which part fails
+            for pc, pw, pt in cls:
+                stage2.append((second.add(pt), pc, pw, info))
+        else:
             dd.violation(cls, what, info)
+    if stage2:
+        res2 = second.run()
+        for t, cls, what, info in stage2:
+            if not res2[t]:
+                dd.violation(cls, what, info)
 
 
 # ---------------------------------------------------------------------------
@@ -605,6 +639,14 @@ def tok(x):
     return "None" if x is None else f"(Some {int(x)}%nat)"
 
 
+TOK_CODE = {None: 0, 1: 1, 2: 2, 3: 3, 11: 4, 31: 5}
+
+
+def state_code(td, tn, ts):
+    """(data, noisy, sparse) tokens -> 3 decimal digits understood by Tie `dec_state`."""
+    return 100 * TOK_CODE.get(td, 9) + 10 * TOK_CODE.get(tn, 9) + TOK_CODE.get(ts, 9)
+
+
 def fault_level(rep, rng, quick, dd):
     base = [
         {"kind": "kl", "components": [[["fourier", 3, 5]]], "n_obs": 2, "n_clusters": 1, "seed": 11},
@@ -623,14 +665,14 @@ def fault_level(rep, rng, quick, dd):
             {"kind": "datasets", "n_points": 5, "n_obs": 3, "seed": 17},
             {"kind": "kl", "components": [[["bsplines", 5, 8]]], "n_obs": 4, "n_clusters": 2, "seed": 18},
         ]
-    run = C.CoqRun("C20", IMPORTS, shard=4)
+    run = C.CoqRun("C20", IMPORTS, shard=6)
     todo = []
     arglist = [(0.25, 0.0, 0.0), (1.0, 0.8, 0.1)] if quick else [(0.25, 0.0, 0.0), (1.0, 0.8, 0.1), (0.0, 0.5, 0.5)]
     for si, spec in enumerate(base):
         two_d = spec_is_2d(spec)
         for with_old in (True, False):
-            if quick:       # quick tier: both parameter sets on the first two simulators, fresh simulators for 1-D and 2-D once
-                n_args = (2 if si < 2 else 1) if with_old else (1 if si in (0, 2) else 0)
+            if quick:       # quick tier: both parameter sets on the first simulator, one fresh (no previous noisy/sparse) 2-D simulator
+                n_args = (2 if si == 0 else 1) if with_old else (1 if si == 2 else 0)
             else:
                 n_args = len(arglist) if with_old else 1
             for args in arglist[:n_args]:
@@ -665,7 +707,7 @@ def fault_level(rep, rng, quick, dd):
                     else:
                         td = 999
                     return td, tn, ts
-                init = f"(tok_state (Some 1%nat) {tok(2 if old_noisy is not None else None)} {tok(3 if old_sparse is not None else None)})"
+                init = state_code(1, 2 if old_noisy is not None else None, 3 if old_sparse is not None else None)
                 # fault-free run first: counts the call events
                 reset()
                 r0 = run_with_fault(sim, args, None)
@@ -674,7 +716,7 @@ def fault_level(rep, rng, quick, dd):
                 obs_terms = []
                 td, tn, ts = observed()
                 nat_raised = r0["outcome"].startswith("error")
-                obs_terms.append(f"(None, ({C.blit(nat_raised)}, tok_state {tok(td)} {tok(tn)} {tok(ts)}))")
+                free_obs = (nat_raised, state_code(td, tn, ts))
                 rep.case(("fault-free", repr(spec), args, with_old), kind=f"fault/none{'-2d' if two_d else ''}",
                          sample={"spec": spec, "args": list(args), "events": n_events, "outcome": r0["outcome"]})
                 if two_d and r0["outcome"] != "error:ValueError":
@@ -724,7 +766,7 @@ def fault_level(rep, rng, quick, dd):
                     else:
                         km = 0 if f["before_noise"] else None
                     if km is not None and r["outcome"] == "fault":
-                        obs_terms.append(f"(Some {km}%N, (true, tok_state {tok(td)} {tok(tn)} {tok(ts)}))")
+                        obs_terms.append(f"{km * 1000 + state_code(td, tn, ts)}%uint63")
                     k += 1
                 rep.case(("fault-enum", repr(spec), args, with_old), kind=f"fault/enumeration{'-2d' if two_d else ''}",
                          sample={"spec": spec, "args": list(args), "faults_injected": n_faults, "by_phase": phases,
@@ -733,8 +775,9 @@ def fault_level(rep, rng, quick, dd):
                 rep.extra["fault_points_enumerated"] = rep.extra.get("fault_points_enumerated", 0) + n_faults
                 rep.extra.setdefault("fault_callables", set()).update(callables)
                 obs = "[" + "; ".join(obs_terms) + "]"
-                t1 = run.add(f"tok_check_allN {C.blit(two_d)} {a}%N {b}%N {init} {obs}")
-                t2 = run.add(f"tok_check_all_nofinallyN {C.blit(two_d)} {a}%N {b}%N {init} {obs}")
+                args_ = (f"{C.blit(two_d)} {a}%uint63 {b}%uint63 {init}%uint63 {C.blit(free_obs[0])} {free_obs[1]}%uint63 {obs}")
+                t1 = run.add(f"tok_check_allP false {args_}")
+                t2 = run.add(f"tok_check_allP true {args_}")
                 todo.append((t1, t2, spec, args, with_old, bad, n_faults))
                 reset()
     res = run.run()
